@@ -30,7 +30,7 @@ RULE = (
 )
 ASSUMPTIONS = [
     "RefHTTP (vlib/refhttp.py) is a correct strict reading of RFC 9112/9110 with the documented profile rules P1-P7 and grey classes G1-G7",
-    "MemPipe/VLoop deliver bytes like a selector transport (selftest/test_engine.py)",
+    "MemPipe/VLoop deliver bytes like a selector transport (selftest/smoke_engine.py)",
     "byte-at-a-time feeding is the canonical segmentation (segmentation independence is C03)",
 ]
 FILES = ["aiohttp/http_parser.py", "aiohttp/web_protocol.py", "aiohttp/http_exceptions.py"]
